@@ -563,9 +563,19 @@ def _nonoverlap_groups(prog, spec, objs, want, n_nodes):
     blk = [n for n in fn.nodes() if n.get("k") == "IfStmt" and norm(n["cond"]) == "noc"]
     if len(blk) != 1:
         raise AnalysisBroken("recGenerateClusterVariablesAndConstraints: the `if (noc)` block was not found")
-    pd = {p_["name"]: p_["did"] for p_ in fn.params if p_.get("name")}
+    pd = {}
+    for p_ in fn.params:
+        t_ = str(p_.get("t", ""))
+        if "NonOverlapConstraints" in t_:
+            pd["noc"] = p_["did"]
+        elif t_.replace("cola::", "").strip() == "Cluster *":
+            pd["cluster"] = p_["did"]
     if "cluster" not in pd or "noc" not in pd:
-        raise AnalysisBroken("recGenerateClusterVariablesAndConstraints: parameters cluster / noc not found")
+        raise AnalysisBroken("recGenerateClusterVariablesAndConstraints: parameters (Cluster *, NonOverlapConstraints *) not found")
+    nocname = [p_["name"] for p_ in fn.params if p_["did"] == pd["noc"]][0]
+    blk = [n for n in fn.nodes() if n.get("k") == "IfStmt" and norm(n["cond"]) == nocname]
+    if len(blk) != 1:
+        raise AnalysisBroken("recGenerateClusterVariablesAndConstraints: the `if (noc)` block was not found")
     for nm, o in objs.items():
         shapes, clusters = [], []
         hooks = {"cola::NonOverlapConstraints::addShape": lambda it, n, env: shapes.append((int(it.ev(call_args(n)[0], env)), int(it.ev(call_args(n)[3], env)))),
